@@ -1,18 +1,25 @@
 //! Kani proof harnesses for mamba's lexer (`/repo/src/parse/lex`) and two name tables.
 //!
-//! Run one harness (see `/verif/lib/kani_runner.py`):
+//! Run one harness (`/verif/lib/kani_runner.py` does this, in parallel, and parses the output):
 //!
 //! ```text
-//! cd /verif/kani && CARGO_NET_OFFLINE=true cargo kani --harness <name> \
-//!     --target-dir <dir outside /verif and /repo> --no-memory-safety-checks --output-format terse
+//! cd /verif/kani && CARGO_NET_OFFLINE=true cargo kani --harness harnesses::<name> --exact \
+//!     --target-dir <dir outside /verif and /repo> --no-memory-safety-checks -Z stubbing \
+//!     [-Z unstable-options --cbmc-args --max-field-sensitivity-array-size 1024]   # state_order_*
 //! ```
 //!
+//! (`--exact`: the plain `--harness` filter is a substring match. `-Z stubbing`: `step_other_char`.
+//! The CBMC option is REQUIRED for `state_order_*`, see `order_summary`.)
+//!
 //! Families
-//!  A. `step2_*` / `step3_*`, `step_other_char` : one call of the real `into_tokens` with a concrete
-//!     first character and K symbolic ASCII look-ahead bytes (effective length n <= K symbolic).
-//!  B. `state_*`                                : one call of one `State` method from an arbitrary state.
-//!  C. `table_*`                                : `concrete_to_python` and `as_op_or_id` against
-//!     hand-written tables.
+//!  A. `step2_*` / `step3_*` : one call of the real `into_tokens` with a concrete first character and
+//!     K = 2 / 3 symbolic ASCII look-ahead bytes (effective length n <= K symbolic).
+//!     `step_other_char`     : any first character that starts no arm, symbolic.
+//!  B. `state_token_pass`, `state_token_comment`, `state_token_nl`, `state_space` : one call of one
+//!     `State` method from a fully symbolic state (length of the result + state afterwards).
+//!     `state_flush`, `state_order_pass_cNN_kK`, `state_order_comment_cNN` : content and order of
+//!     the returned tokens; indentation widths / pending count enumerated, caret + flag symbolic.
+//!  C. `table_*` : `concrete_to_python` and `as_op_or_id` against hand-written tables.
 //!
 //! Everything a harness assumes is a `kani::assume` in this file (grep for it); every bound is a
 //! `const` or a macro argument in this file.
@@ -843,14 +850,9 @@ mod harnesses {
             "token: caret advanced by token width on the same line"
         );
 
-        kani::cover!(pre.l > pre.c && amount == 0, "cover: l > c within one level");
-        kani::cover!(pre.l < pre.c && amount == 0, "cover: l < c within one level");
-        kani::cover!(pre.l == pre.c, "cover: l == c");
-        kani::cover!(pre.k == MAX_PENDING, "cover: k == 2");
-        kani::cover!(pre.k == 0, "cover: k == 0");
-        kani::cover!(up && amount == D, "cover: D indents at once");
-        kani::cover!(!up && amount == D, "cover: D dedents at once");
-        kani::cover!(res.len() == MAX_RES, "cover: longest result");
+        // No kani::cover! here: the callers enumerate concrete cases, so reachability is by
+        // construction, and CBMC builds one trace per satisfied cover instance over the whole
+        // unrolled program (measured: 104 instances = +140 s per harness).
     }
 
     /// Content and order of what `State::token` returns, for one concrete cur_indent `c` and one
@@ -879,7 +881,7 @@ mod harnesses {
     }
 
     macro_rules! order_summaries {
-        ($( $c:literal : $k0:ident $k1:ident $k2:ident $comment:ident ; )*) => {
+        ($( $c:literal : $k0:ident $k1:ident $k2:ident $( + $comment:ident )? ; )*) => {
             $(
                 #[kani::proof]
                 #[kani::unwind(15)]
@@ -899,13 +901,16 @@ mod harnesses {
                     order_summary($c, 2, || Token::Pass, K::Pass, 4);
                 }
 
-                /// token with a payload; the order logic does not depend on the token, so only
-                /// the most general pending count (one popped + one remaining newline)
-                #[kani::proof]
-                #[kani::unwind(15)]
-                fn $comment() {
-                    order_summary($c, 2, || Token::Comment(String::from("c")), K::Comment, 2);
-                }
+                $(
+                    /// token with a payload; the order logic does not depend on the token, so
+                    /// only the most general pending count (one popped + one remaining newline)
+                    /// and only three cur_indent values (lowest, a non-multiple of 4, highest)
+                    #[kani::proof]
+                    #[kani::unwind(15)]
+                    fn $comment() {
+                        order_summary($c, 2, || Token::Comment(String::from("c")), K::Comment, 2);
+                    }
+                )?
             )*
             /// the macro rows are exactly 1..=MAX_INDENT (checked in `state_token_pass`)
             const ORDER_SUMMARY_ROWS: &[i32] = &[$($c),*];
@@ -913,19 +918,19 @@ mod harnesses {
     }
 
     order_summaries! {
-        1  : state_order_pass_c01_k0 state_order_pass_c01_k1 state_order_pass_c01_k2 state_order_comment_c01;
-        2  : state_order_pass_c02_k0 state_order_pass_c02_k1 state_order_pass_c02_k2 state_order_comment_c02;
-        3  : state_order_pass_c03_k0 state_order_pass_c03_k1 state_order_pass_c03_k2 state_order_comment_c03;
-        4  : state_order_pass_c04_k0 state_order_pass_c04_k1 state_order_pass_c04_k2 state_order_comment_c04;
-        5  : state_order_pass_c05_k0 state_order_pass_c05_k1 state_order_pass_c05_k2 state_order_comment_c05;
-        6  : state_order_pass_c06_k0 state_order_pass_c06_k1 state_order_pass_c06_k2 state_order_comment_c06;
-        7  : state_order_pass_c07_k0 state_order_pass_c07_k1 state_order_pass_c07_k2 state_order_comment_c07;
-        8  : state_order_pass_c08_k0 state_order_pass_c08_k1 state_order_pass_c08_k2 state_order_comment_c08;
-        9  : state_order_pass_c09_k0 state_order_pass_c09_k1 state_order_pass_c09_k2 state_order_comment_c09;
-        10 : state_order_pass_c10_k0 state_order_pass_c10_k1 state_order_pass_c10_k2 state_order_comment_c10;
-        11 : state_order_pass_c11_k0 state_order_pass_c11_k1 state_order_pass_c11_k2 state_order_comment_c11;
-        12 : state_order_pass_c12_k0 state_order_pass_c12_k1 state_order_pass_c12_k2 state_order_comment_c12;
-        13 : state_order_pass_c13_k0 state_order_pass_c13_k1 state_order_pass_c13_k2 state_order_comment_c13;
+        1  : state_order_pass_c01_k0 state_order_pass_c01_k1 state_order_pass_c01_k2 + state_order_comment_c01;
+        2  : state_order_pass_c02_k0 state_order_pass_c02_k1 state_order_pass_c02_k2;
+        3  : state_order_pass_c03_k0 state_order_pass_c03_k1 state_order_pass_c03_k2;
+        4  : state_order_pass_c04_k0 state_order_pass_c04_k1 state_order_pass_c04_k2;
+        5  : state_order_pass_c05_k0 state_order_pass_c05_k1 state_order_pass_c05_k2;
+        6  : state_order_pass_c06_k0 state_order_pass_c06_k1 state_order_pass_c06_k2 + state_order_comment_c06;
+        7  : state_order_pass_c07_k0 state_order_pass_c07_k1 state_order_pass_c07_k2;
+        8  : state_order_pass_c08_k0 state_order_pass_c08_k1 state_order_pass_c08_k2;
+        9  : state_order_pass_c09_k0 state_order_pass_c09_k1 state_order_pass_c09_k2;
+        10 : state_order_pass_c10_k0 state_order_pass_c10_k1 state_order_pass_c10_k2;
+        11 : state_order_pass_c11_k0 state_order_pass_c11_k1 state_order_pass_c11_k2;
+        12 : state_order_pass_c12_k0 state_order_pass_c12_k1 state_order_pass_c12_k2;
+        13 : state_order_pass_c13_k0 state_order_pass_c13_k1 state_order_pass_c13_k2 + state_order_comment_c13;
     }
 
     /// `State::token(Pass)` from a fully symbolic state (cur_indent, line_indent, pending, caret,
@@ -1091,13 +1096,11 @@ mod harnesses {
                 state.pos.line == pos.line && state.pos.pos == pos.pos,
                 "flush: caret unchanged"
             );
-            kani::cover!(amount == 0, "cover: nothing to flush");
-            kani::cover!(amount == D, "cover: D dedents");
-            kani::cover!(k == MAX_PENDING, "cover: k == 2");
             forget(res);
             forget(state);
             c += 1;
         }
+        kani::cover!(k == MAX_PENDING && l == MAX_INDENT, "cover: k == 2, l == max");
     }
 
     // ==========================================================================================
